@@ -116,7 +116,11 @@ func (in *Interp) lockAcquire(l VLoc) {
 	*c = VBool(true)
 }
 
-func (in *Interp) lockRelease(l VLoc) {
+func (in *Interp) lockRelease(l VLoc) { in.lockReleaseYield(l, true) }
+
+// lockReleaseYield: condWait releases without a scheduling point of its own (it parks right away,
+// and the bookkeeping of "another thread has released the lock since" starts there).
+func (in *Interp) lockReleaseYield(l VLoc, yield bool) {
 	c := in.cell(l, 0)
 	b, ok := (*c).(VBool)
 	if !ok {
@@ -128,6 +132,13 @@ func (in *Interp) lockRelease(l VLoc) {
 	*c = VBool(false)
 	if in.sched != nil {
 		in.sched.releases[l.B]++
+		// another thread may run between a release and what the releasing thread does next: for a
+		// data-race-free program that changes nothing, but the TRANSLATED program may read shared
+		// state right after the release (seeded change C03-12: the condition of an if evaluated
+		// after a hoisted Unlock)
+		if yield {
+			in.syncPoint("lock.release")
+		}
 	}
 }
 
